@@ -3,6 +3,7 @@ import PttVerif.Proofs.C18Ansi
 import PttVerif.Proofs.C18Misc
 import PttVerif.Proofs.C18Misc2
 import PttVerif.Proofs.C18Subject
+import PttVerif.Proofs.C18Alias
 /-
 C18 — Byte-string primitives agree with their C counterparts and never crash.
 Property theorems only (helper lemmas live in Proofs/C18*.lean).  All statements are over arbitrary
@@ -561,5 +562,72 @@ theorem subjectEx_former_witnesses :
 example : subjectEx [82, 69, 58, 32, 102, 119, 58, 91, 0xC2, 0xE0, 0xBF, 0xFD, 93, 32, 32, 120, 0] = .ok (SUBJECT_FORWARD, [32, 120]) := by
   rfl
 example : subjectEx [82, 101, 0] = .ok (SUBJECT_NORMAL, [82, 101]) := by rfl
+
+/-! ## Result ownership — a result stays what it was, whatever is called afterwards
+
+`Model/C18Alias.lean`: slices are (backing array, offset, length) over a heap; a history is a list of calls whose
+arguments are literals or earlier results still held by the caller. The driver prints what the caller holds as
+read from the heap AFTER the history. -/
+
+/-- for every history `s1 ++ s2` of calls of the slice-returning helpers (StripAnsi in any mode, CstrToBytes,
+CstrTolower/Toupper, CstrTokenR, DBCSSafeTrim, Trim, ReadLine, StripNoneBig5, TrimDBCS, SubjectEx): everything the
+caller holds after `s1` is still held and reads byte for byte the same after `s2` — no call writes into memory
+that an earlier result occupies. -/
+theorem hist_stable (s1 s2 : List Step) (h1 hF : Heap) (held1 heldF : List Res)
+    (hr1 : histRun [] [] s1 = some (.ok (h1, held1)))
+    (hrF : histRun [] [] (s1 ++ s2) = some (.ok (hF, heldF))) :
+    held1 <+: heldF ∧ ∀ r ∈ held1, ∀ s ∈ r.sls, hF.rd s = h1.rd s := by
+  have hv0 : HeldValid [] [] := by intro r hr; simp at hr
+  obtain ⟨_, hv1, _⟩ := histRun_spec s1 [] [] h1 held1 hv0 hr1
+  rw [histRun_append s1 s2 [] [] h1 held1 hr1] at hrF
+  obtain ⟨⟨extra, rfl⟩, _, hp⟩ := histRun_spec s2 h1 held1 hF heldF hv1 hrF
+  exact ⟨hp, fun r hr s hs => rd_append h1 extra s (hv1 r hr s hs)⟩
+
+/-- what a StripAnsi call on a literal hands to its caller is the stripped text of its input. -/
+theorem strip_result_value (h : Heap) (held : List Res) (flag : Nat) (b : List Nat) (h' : Heap) (r : Res)
+    (hrun : stepRun h held (.strip flag (.lit b)) = some (.ok (h', r))) :
+    ∃ out, stripAnsi b flag = .ok out ∧ r.sls.map h'.rd = [out] := by
+  have hrd : (h ++ [b]).rd ⟨h.length, 0, b.length⟩ = b := (alloc_spec h b).2.2
+  simp only [stepRun, resolve, alloc, Option.map_some, Option.some.injEq, bind, Except.bind, hrd] at hrun
+  cases ho : stripAnsi b flag with
+  | error e => simp [ho] at hrun
+  | ok out =>
+    simp only [ho, pure, Except.pure, Except.ok.injEq, Prod.mk.injEq] at hrun
+    obtain ⟨rfl, rfl⟩ := hrun
+    refine ⟨out, rfl, ?_⟩
+    simp [Heap.rd, List.getD]
+
+/-- the two together, the clause the property needs: a StripAnsi result, read after ANY later history (more
+stripping in other modes, of other messages, of this very result), is still the stripped text of its own input
+(so in strip-all mode it still holds no ESC byte, and stripping it again still gives the same). -/
+theorem strip_held_value (pre s2 : List Step) (flag : Nat) (b : List Nat) (h0 h1 hF : Heap)
+    (held0 heldF : List Res) (r : Res)
+    (hpre : histRun [] [] pre = some (.ok (h0, held0)))
+    (hstep : stepRun h0 held0 (.strip flag (.lit b)) = some (.ok (h1, r)))
+    (hall : histRun [] [] ((pre ++ [.strip flag (.lit b)]) ++ s2) = some (.ok (hF, heldF))) :
+    ∃ out, stripAnsi b flag = .ok out ∧ r.sls.map hF.rd = [out] ∧ r ∈ heldF := by
+  have h1run : histRun [] [] (pre ++ [.strip flag (.lit b)]) = some (.ok (h1, held0 ++ [r])) := by
+    rw [histRun_append pre _ [] [] h0 held0 hpre]
+    simp [histRun, hstep, pure, Except.pure]
+  obtain ⟨hp, hst⟩ := hist_stable _ s2 h1 hF (held0 ++ [r]) heldF h1run hall
+  obtain ⟨out, ho, hv⟩ := strip_result_value h0 held0 flag b h1 r hstep
+  refine ⟨out, ho, ?_, hp.subset (by simp)⟩
+  rw [← hv]
+  apply List.map_congr_left
+  intro s hs
+  exact hst r (by simp) s hs
+
+/-- the broken rule (seed C18-r4-2): with ONE scratch buffer shared by all calls, an earlier result changes under
+its holder — the strip-all result `ab` of the first call reads `ESC [` after an only-colour call. -/
+theorem stripPooled_witness :
+    ∃ h1 s1 h2 s2, stripPooled [] [97, 27, 91, 72, 98] STRIP_ANSI_ALL = .ok (h1, s1) ∧ h1.rd s1 = [97, 98] ∧
+      stripPooled h1 [27, 91, 109, 120] STRIP_ANSI_ONLY_COLOR = .ok (h2, s2) ∧ h2.rd s1 = [27, 91] := by
+  refine ⟨_, _, _, _, by rfl, by rfl, by rfl, by rfl⟩
+
+/-! non-vacuity: a history that re-reads and re-uses earlier results -/
+example : histObserve [.strip 0 (.lit [97, 27, 91, 72, 98]), .strip 1 (.lit [27, 91, 109, 120]), .strip 0 (.ref 0),
+    .nb5 [97, 1, 164], .toBytes (.ref 1)] =
+    some (.ok [(none, [[97, 98]]), (none, [[27, 91, 109, 120]]), (none, [[97, 98]]), (none, [[97]]),
+      (none, [[27, 91, 109, 120]])]) := by rfl
 
 end PttVerif.C18.Props
